@@ -133,7 +133,7 @@ def run(L, tier, only=None):
             L.lemma("C15 recording, arm " + op, recording_lemma(opcode=op))
     natives = [("load_core", w) for w in (["dup", "drop", "swap", "rot", "over", "I", "nth", "depth"] if not quick else ["dup", "swap", "over", "I"])] + ([("arith::load", "+")] if not quick else []) + \
               [("bitstr_ext::load", w) for w in ([] if quick else ["bits", "seek"])] + \
-              [(None, h) for h in (["vec_builder_begin", "vec_builder_end", "foreach_init", "foreach_next"] if not quick else ["vec_builder_begin", "foreach_next"])]
+              [(None, h) for h in (["vec_builder_begin", "foreach_init", "foreach_next"] if not quick else ["vec_builder_begin", "foreach_next"])]      # vec_builder_end: unbounded collect loop, see C02's bounded lemma
     for nat in natives:
         if not only or nat[1] in only or "natives" in only:
             L.lemma("C15 recording, native " + nat[1], recording_lemma(native=nat))
